@@ -2,7 +2,7 @@
 """Writes the theorem index (appendix A of DESIGN.md) from coq/Props/*.v."""
 import glob, os, re
 out = ["## Appendix A. Theorem index (generated from coq/Props/*.v by tools/theorem_index.py)", "",
-       "Every theorem below is closed by `exact <lemma>` with the proof in coq/Proofs/; the text is the",
+       "Every theorem below (all but two) is closed by `exact <lemma>` with the proof in coq/Proofs/; the six `Example`s are listed too; the text is the",
        "comment that precedes the statement in the Props file.", ""]
 for f in sorted(glob.glob("/verif/coq/Props/C*.v")):
     pid = os.path.basename(f)[:-2]
